@@ -25,6 +25,37 @@ def evaluate(pid: str, model: Model, tier: str = "quick", ck: report.Check | Non
     return ck
 
 
+def run_all(a) -> int:
+    """Evaluate every property on one model (dev aid for the seed/twin experiments): one status line per property."""
+    import glob
+    worst = 0
+    try:
+        model = Model(a.repo)
+    except AnalysisError as e:
+        print(f"ANALYSIS-ERROR property=ALL: {e}")
+        return 2
+    for f in sorted(glob.glob(os.path.join(report.VERIF, "rules", "c[0-9][0-9].py"))):
+        pid = os.path.basename(f)[:-3].upper()
+        ck = report.Check(pid, model, "quick")
+        try:
+            evaluate(pid, model, "quick", ck)
+            new, matched = report.classify(pid, ck.violations())
+            if new:
+                code = 1
+                detail = " | ".join(f"{o.rule} {o.construct}: {o.msg[:160]}" for o in new[:3])
+            elif ck.deferred:
+                code, detail = 2, "; ".join(ck.deferred)[:300]
+            else:
+                code, detail = 0, ""
+        except AnalysisError as e:
+            code, detail = 2, str(e)[:300]
+        except Exception:
+            code, detail = 2, "internal error: " + traceback.format_exc().splitlines()[-1][:200]
+        worst = max(worst, code)
+        print(f"{pid} exit={code} {detail}")
+    return worst
+
+
 def main(argv=None) -> int:
     ap = argparse.ArgumentParser(prog="check")
     ap.add_argument("property")
@@ -35,6 +66,8 @@ def main(argv=None) -> int:
     ap.add_argument("--no-evidence", action="store_true")
     a = ap.parse_args(argv)
     pid = a.property.upper()
+    if pid == "ALL":
+        return run_all(a)
     ck = None
     try:
         model = Model(a.repo)
